@@ -7,7 +7,8 @@
 //! a fact index) and rooted mid-way in the init segment (rebuilt perspective over nothing) — on
 //! `MemStorageProvider`, the harness's `CapIo` manager and the libc `FileManager` in lock-step.
 //!
-//! Operations: ins(key,val) | del(key) | cmd (add_command) | checkpoint | revert(i) for every
+//! Operations: ins(key,val) | del(key) | cmd (add_command) | an add_command that must be refused
+//! (parent with a wrong id / with a wrong max cut: `Err`, perspective unchanged) | checkpoint | revert(i) for every
 //! live checkpoint i (a revert discards the checkpoints taken after i; at most 3 live).
 //!
 //! Oracle (statement: "restores exactly the commands and facts visible when the checkpoint was
@@ -52,6 +53,8 @@ enum Op {
     Cmd,
     Ckpt,
     Revert(u8),
+    /// an add_command that must be refused: 0 = wrong parent id, 1 = wrong parent max cut
+    Refused(u8),
 }
 
 #[derive(Clone, Copy, Debug, PartialEq, Eq, PartialOrd, Ord)]
@@ -81,6 +84,8 @@ impl Space {
             Op::Cmd => "cmd".into(),
             Op::Ckpt => "checkpoint".into(),
             Op::Revert(i) => format!("revert({i})"),
+            Op::Refused(0) => "add_command(wrong parent id: refused)".into(),
+            Op::Refused(_) => "add_command(wrong parent max cut: refused)".into(),
         }
     }
     fn show_hist(&self, base: Base, h: &[Op]) -> String {
@@ -94,6 +99,7 @@ impl Space {
             Op::Cmd => json!(["cmd"]),
             Op::Ckpt => json!(["checkpoint"]),
             Op::Revert(i) => json!(["revert", i]),
+            Op::Refused(w) => json!(["refused", w]),
         }
     }
 }
@@ -189,6 +195,22 @@ impl<SP: StorageProvider> Subject<SP> {
                 let c = p.checkpoint();
                 self.ckpt_indices.push((c.index, c.pending));
                 Ok(())
+            }
+            Op::Refused(why) => {
+                // a command whose parent is not the head of the perspective must be refused and
+                // must leave the perspective exactly as it was
+                let head = p.head_address().map_err(|e| format!("[{tag}] head_address: {e:?}"))?;
+                let bogus = match (head, why) {
+                    (Prior::Single(a), 0) => Prior::Single(Address { id: cmd_id(9, 1), max_cut: a.max_cut }),
+                    (Prior::Single(a), _) => Prior::Single(Address { id: a.id, max_cut: MaxCut::new(a.max_cut.get() + 1) }),
+                    (_, 0) => Prior::Single(Address { id: cmd_id(9, 1), max_cut: MaxCut::new(0) }),
+                    (_, _) => Prior::Single(Address { id: cmd_id(9, 2), max_cut: MaxCut::new(1) }),
+                };
+                let cmd = TestCmd { id: cmd_id(9, 7), parent: bogus, prio: Priority::Basic(0), data: vec![] };
+                match p.add_command(&cmd) {
+                    Err(_) => Ok(()),
+                    Ok(n) => Err(format!("[{tag}] add_command with a parent that is not the head was accepted (returned {n})")),
+                }
             }
             Op::Revert(i) => {
                 let (index, pending) = self.ckpt_indices[i as usize];
@@ -290,6 +312,8 @@ struct Stats {
     reverts_noop: AtomicU64,
     reverts_to_tainted: AtomicU64,
     end_writes: AtomicU64,
+    refused: AtomicU64,
+    refused_with_pending_writes: AtomicU64,
     q_hits: AtomicU64,
     q_prefix: AtomicU64,
 }
@@ -368,6 +392,14 @@ fn exec_inner(cfg: &Cfg<'_>, hist: &[Op]) -> Result<(u128, Info), Fail> {
                 m.ids_used = m.ids_used.max(m.snaps.len());
             }
             Op::Ckpt => m.ckpts.push(Ck { index: m.ckpts.len(), cur: m.cur.clone(), n_cmds: m.snaps.len(), pending: m.pending.clone(), tainted: !m.pending.is_empty() }),
+            Op::Refused(_) => {
+                if i + 1 == hist.len() {
+                    cfg.stats.refused.fetch_add(1, Relaxed);
+                    if !m.pending.is_empty() {
+                        cfg.stats.refused_with_pending_writes.fetch_add(1, Relaxed);
+                    }
+                }
+            }
             Op::Revert(j) => {
                 let c = m.ckpts[j as usize].clone();
                 if i + 1 == hist.len() {
@@ -466,6 +498,8 @@ fn enabled(sp: &Space, info: &Info) -> Vec<Op> {
         v.push(Op::Del(k));
     }
     v.push(Op::Cmd);
+    v.push(Op::Refused(0));
+    v.push(Op::Refused(1));
     if info.ckpts < sp.max_ckpts {
         v.push(Op::Ckpt);
     }
@@ -587,6 +621,8 @@ pub fn run(args: &Args) {
         ("reverts_with_nothing_to_drop", stats.reverts_noop.load(Relaxed)),
         ("reverts_to_checkpoint_taken_with_pending_writes", stats.reverts_to_tainted.load(Relaxed)),
         ("end_state_written_as_segment", stats.end_writes.load(Relaxed)),
+        ("refused_add_commands", stats.refused.load(Relaxed)),
+        ("refused_add_commands_with_pending_writes", stats.refused_with_pending_writes.load(Relaxed)),
         ("exact_query_hits", stats.q_hits.load(Relaxed)),
         ("prefix_queries", stats.q_prefix.load(Relaxed)),
     ] {
@@ -625,6 +661,7 @@ fn replay(args: &Args, space: &Space, full: &Alphabet, path: &std::path::Path) -
             "cmd" => Op::Cmd,
             "checkpoint" => Op::Ckpt,
             "revert" => Op::Revert(a[1].as_u64().unwrap() as u8),
+            "refused" => Op::Refused(a[1].as_u64().unwrap() as u8),
             _ => mcx::machinery_error("replay: op"),
         });
     }
